@@ -348,6 +348,9 @@ def foreign_blocks(ctx, s, rng):
     """valid records written by another program are read, not crashed on"""
     from rdkit import Chem
     from rdkit.Chem import AllChem
+    if '~' in s:
+        ctx.count('foreign.skipped-any-bond')     # '~' is a query bond for RDKit (and leaves the metal a radical), a coordinate bond for the library
+        return
     rd = Chem.MolFromSmiles(s)
     if rd is None:
         return
